@@ -1,5 +1,6 @@
-open Model
+module List = Stdlib.List
 open Conv
+open RW
 
 let op_of (x : Sx.t) : op =
   match Sx.tag x, Sx.args x with
